@@ -516,7 +516,7 @@ def same(ref, got):
 
     if isinstance(ref, tuple) and ref and ref[0] == "V":
         if not isinstance(got, Vector):
-            return f"expected a vector, got {type(got).__name__} {got!r}"
+            return f"expected a vector, got {type(got).__name__} {sstr(got, 80)}"
         for a, b in zip(ref[1:], (got.x, got.y, got.z)):
             m = same(float(a), float(b))
             if m:
@@ -524,10 +524,10 @@ def same(ref, got):
         return None
     if isinstance(ref, tuple) and ref and ref[0] == "NT":
         if type(got).__name__ != "NT":
-            return f"expected namedtuple NT, got {type(got).__name__} {got!r}"
+            return f"expected namedtuple NT, got {type(got).__name__} {sstr(got, 80)}"
         return same(tuple(ref[1:]), tuple(got))
     if isinstance(ref, bool) or isinstance(got, bool):
-        return None if (type(ref) is type(got) and ref == got) else f"{ref!r} != {got!r}"
+        return None if (type(ref) is type(got) and ref == got) else f"{ref!r} != {sstr(got, 80)}"
     if isinstance(ref, (int, float)):
         import numbers
 
@@ -537,11 +537,11 @@ def same(ref, got):
         if ref == got:
             return None
         if isinstance(ref, int) and isinstance(got, int):
-            return f"{ref!r} != {got!r}"
+            return f"{ref!r} != {sstr(got, 80)}"
         tol = 1e-11 * max(1.0, abs(ref), abs(got))
-        return None if abs(ref - got) <= tol else f"{ref!r} != {got!r}"
+        return None if abs(ref - got) <= tol else f"{ref!r} != {sstr(got, 80)}"
     if isinstance(ref, str):
-        return None if (isinstance(got, str) and ref == got) else f"{ref!r} != {got!r}"
+        return None if (isinstance(got, str) and ref == got) else f"{ref!r} != {sstr(got, 80)}"
     if isinstance(ref, (tuple, list)):
         if type(got) is not type(ref) and not (isinstance(ref, tuple) and isinstance(got, tuple)):
             return f"expected {type(ref).__name__}, got {type(got).__name__} {sstr(got, 80)}"
@@ -560,7 +560,7 @@ def same(ref, got):
             if m:
                 return f"[{kk!r}] {m}"
         return None
-    return None if ref == got else f"{ref!r} != {got!r}"
+    return None if ref == got else f"{ref!r} != {sstr(got, 80)}"
 
 
 def deep_resolve(v):
